@@ -182,3 +182,6 @@ term_attr!(FTerm, FaceIdType, OrbitPolicy::Face, full);
 term_attr!(CTerm, VolumeIdType, OrbitPolicy::Volume, full);
 // bound through the LINEAR vertex policy on purpose: the attribute manager must treat it as a vertex attribute all the same
 term_attr!(VDef, VertexIdType, OrbitPolicy::VertexLinear, default);
+// bound to a CUSTOM orbit: the attribute manager keeps such storages in a bucket of their own (`others`), which no sew merges or
+// splits but which allocation must extend like every other storage (C18); 2-D sessions only, storage 4 / mask bit 3
+term_attr!(OTerm, honeycomb_core::cmap::DartIdType, OrbitPolicy::Custom(&[1]), full);
